@@ -28,10 +28,15 @@ func init() {
 			}
 		})
 		e.rep.Note("calls that returned an error: %d", nErr)
-		return err
+		if err != nil {
+			return err
+		}
+		// fallible methods of the source struct (alone, behind nil-guarded paths, and feeding `map … | FUNC`)
+		e.rep.Rule += "; plus converters whose fields are fed by (fallible) methods of the source struct, directly, through value and pointer paths and as the source of a `map … | FUNC` function, inside slices and maps of pointers, under the three wrapping modes"
+		return runFamilies(e, "C07", "source-methods", famMethods, b, per, 8, nil, nil)
 	}
 	campaigns["C11"] = func(e *env) error {
-		e.rep.Rule = "cases = (converter, method, source): (a) methods with `default FUNC` over the four pointer shapes (T->U, *T->*U, T->*U, *T->U) with constructors returning a value or a pointer, with/without source argument and error result, combined with default:update at converter and method level, ignored fields and useZeroValueOnPointerInconsistency; constructors return a recognisable value (numbers 7, strings \"ctor\"); (b) the structural pointer matrix of C02 (T, *T, **T on either side at top-level, field, element and map positions, flag on/off). Executed on nil and non-nil sources; compared with Gv.Gen + Gv.Eval. non-trivial = every call; distinct = (converter, method, source)"
+		e.rep.Rule = "cases = (converter, method, source): (a) methods with `default FUNC` over the four pointer shapes (T->U, *T->*U, T->*U, *T->U) with constructors returning a value or a pointer, with/without source argument and error result, combined with default:update at converter and method level, ignored fields and useZeroValueOnPointerInconsistency; constructors return a recognisable value (numbers 7, strings \"ctor\"); (b) random structural converters with pointer perturbations, and the PINNED pointer matrix: every pair of T, *T, **T on either side x {top level, struct field, slice element, map value} x inner type {int, struct; thorough: also string, slice, map} x flag on/off. Executed on nil and non-nil sources; compared with Gv.Gen + Gv.Eval. non-trivial = every call; distinct = (converter, method, source)"
 		b, per := 2, 30
 		if e.thorough {
 			b, per = 10, 50
@@ -45,6 +50,11 @@ func init() {
 			n, pb = 6, 100
 		}
 		batches := structuralBatchesOpt(e, r, n, pb, []string{"useZeroValueOnPointerInconsistency"}, "pointer-matrix", false)
+		inners := []string{"int", "PmInner"}
+		if e.thorough {
+			inners = []string{"int", "string", "PmInner", "[]int", "map[string]int"}
+		}
+		batches = append(batches, pointerMatrixBatch(inners))
 		res, err := runK2(e, "c11s", batches)
 		if err != nil {
 			return err
@@ -65,7 +75,11 @@ func init() {
 		if e.thorough {
 			b, per = 10, 50
 		}
-		return runFamilies(e, "C05", "fields", famFields, b, per, 7, nil, nil)
+		if err := runFamilies(e, "C05", "fields", famFields, b, per, 7, nil, nil); err != nil {
+			return err
+		}
+		e.rep.Rule += "; plus argument-less (and context-taking) methods of the source struct as sources: matched by name, named by goverter:map directly and at the end of value / pointer / double-pointer paths, and as the source of `map … | FUNC`"
+		return runFamilies(e, "C05", "source-methods", famMethods, b, per, 6, nil, nil)
 	}
 	campaigns["C08"] = func(e *env) error {
 		e.rep.Rule = "cases = (converter, method, value): enum pairs over int, uint8 and string underlying types with duplicate-valued members, mapped by enum:transform regex and enum:map (members and actions), with every enum:unknown policy (@error, @panic, @ignore, a member, missing), in top-level, struct field, slice element and map value positions; executed over member and non-member values; compared with Gv.Gen (outcome) + Gv.Eval (switch semantics). non-trivial = every call or diagnostic; distinct = (converter, method, value)"
